@@ -192,7 +192,9 @@ func (e *CrashEngine) Execute(p *sim.Plan, keepLog bool) (res *sim.RunResult) {
 				res.HarnessErr += "\n" + pr.Stack
 			}
 		}
-		res.LogHash = w.Log.Hash()
+		if res.LogHash == "" {
+			res.LogHash = w.Log.Hash()
+		}
 		res.Faults = w.Stats.Faults
 		res.Probes = w.Stats.Probes
 		if keepLog {
@@ -247,6 +249,16 @@ func (e *CrashEngine) Execute(p *sim.Plan, keepLog bool) (res *sim.RunResult) {
 		return x.doStep(rs, &st, nil)
 	}
 
+	setupHash := w.Log.Hash()
+	refHash := ""
+	defer func() {
+		// The log hash of a crash scenario covers the set-up, the multiset of the target's storage
+		// mutations and the number of cases. The per-case logs are left out: for cache-level
+		// merges git-bug's own producer and consumer goroutines interleave their calls freely, so
+		// the identity of "the k-th mutation" is not a function of the plan (the oracle does not
+		// depend on it: every prefix of every interleaving must leave old-or-new states).
+		res.LogHash = model.Sha256Hex([]byte(setupHash + "|" + refHash + "|" + fmt.Sprint(res.Cases)))[:16]
+	}()
 	// ---- reference run (fault-free)
 	if err := r.Open(); err != nil {
 		res.HarnessErr = "open for reference run: " + err.Error()
@@ -259,6 +271,20 @@ func (e *CrashEngine) Execute(p *sim.Plan, keepLog bool) (res *sim.RunResult) {
 	errRef := runTarget()
 	M := r.C.MutCount() - base
 	trace := append([]string{}, r.C.Trace...)
+	{
+		norm := make([]string, len(trace))
+		for i, t := range trace {
+			f := strings.Fields(t)
+			switch {
+			case len(f) >= 2 && (f[0] == "Witness" || f[0] == "fs.Write"):
+				norm[i] = f[0] + " " + f[1]
+			default:
+				norm[i] = t
+			}
+		}
+		sort.Strings(norm)
+		refHash = model.Sha256Hex([]byte(strings.Join(norm, "\n")))
+	}
 	if errRef != nil {
 		// the target legitimately failed (nothing to edit...): nothing to enumerate
 		x.probe("target_failed_fault_free")
@@ -304,11 +330,16 @@ func (e *CrashEngine) Execute(p *sim.Plan, keepLog bool) (res *sim.RunResult) {
 				var n int
 				fmt.Sscanf(strings.TrimPrefix(trace[k], "fs.Write "), "%s %d bytes", &name, &n)
 				cases = append(cases, ccase{k, "new"})
-				seen := map[int]bool{0: true, n: true}
-				for _, c := range []int{1, n / 2, n - 1} {
-					if c > 0 && c < n && !seen[c] {
-						seen[c] = true
-						cases = append(cases, ccase{k, fmt.Sprintf("prefix:%d", c)})
+				if strings.HasPrefix(name, "tmp:") {
+					// clock values (1-2 digits) arrive in Go map order: same variants whatever the size
+					cases = append(cases, ccase{k, "prefix:1"})
+				} else {
+					// sizes of gob-encoded cache files vary by a byte between executions: relative cuts
+					if n >= 2 {
+						cases = append(cases, ccase{k, "prefix:1"})
+					}
+					if n >= 4 {
+						cases = append(cases, ccase{k, "prefix:half"}, ccase{k, "prefix:allbut1"})
 					}
 				}
 			}
